@@ -5,7 +5,50 @@
  kind "fuzz"   : Fuzz*      - native coverage-guided fuzzing, thorough tier only
 """
 
+import json as _json
+import os as _os
+import re as _re
+
 PREBUILD = {}
+
+_HARNESS = _os.path.join(_os.path.dirname(_os.path.dirname(_os.path.abspath(__file__))), "harness")
+
+
+def prebuild_lockmon(tmp, env):
+    """C14 lock monitor: build an overlay view of the CURRENT /repo tree in which every sync.Mutex /
+    sync.RWMutex of imapserver/** is a monitored one (harness/_lockmon injected as internal/lockmon).
+    Line numbers are preserved (the import is added on the package-clause line). Nothing is written to /repo."""
+    repo = _os.environ.get("VERIF_REPO") or "/repo"
+    ov = _os.path.join(tmp, "lockmon-overlay")
+    _os.makedirs(ov, exist_ok=True)
+    repl = {repo + "/internal/lockmon/lockmon.go": _os.path.join(_HARNESS, "_lockmon", "lockmon.go")}
+    n = 0
+    for root, _dirs, files in _os.walk(repo + "/imapserver"):
+        for f in sorted(files):
+            if not f.endswith(".go") or f.endswith("_test.go"):
+                continue
+            path = _os.path.join(root, f)
+            src = open(path, encoding="utf-8").read()
+            if "sync.Mutex" not in src and "sync.RWMutex" not in src:
+                continue
+            new = src.replace("sync.RWMutex", "lockmon.RWMutex").replace("sync.Mutex", "lockmon.Mutex")
+            new, k = _re.subn(r"(?m)^package[ \t]+(\w+)", lambda m: m.group(0) + '; import lockmon "github.com/emersion/go-imap/v2/internal/lockmon"', new, count=1)
+            if k != 1:
+                continue
+            if _re.search(r'(?m)^\s*(import\s+)?"sync"\s*$', new):
+                new += "\nvar _ sync.Locker\n"
+            n += 1
+            out = _os.path.join(ov, "%d_%s" % (n, f))
+            with open(out, "w", encoding="utf-8") as fh:
+                fh.write(new)
+            repl[path] = out
+    ovj = _os.path.join(tmp, "lockmon-overlay.json")
+    with open(ovj, "w") as fh:
+        _json.dump({"Replace": repl}, fh)
+    return ["-overlay", ovj, "-tags", "lockmon"]
+
+
+PREBUILD["lockmon"] = prebuild_lockmon
 
 
 def plain(pkg, run, shards_q=1, shards_t=1, **kw):
@@ -444,14 +487,23 @@ PROPS = {
                 "moves in opposite directions between two mailboxes, expunge/append/store during fetches, searches and idling, LIST during "
                 "create/rename/delete with STATUS during appends. Oracles: every command receives its tagged completion within the watchdog (the "
                 "report carries the trial and the goroutine dump of the server), no connection is dropped, no panic in the server log, and no race "
-                "detector report. Non-trivial: a trial in which two sessions copy/move between the same two mailboxes in opposite directions; "
-                "distinct by rendered trial.",
+                "detector report; after the clients disconnect every connection goroutine of the trial must end. Second engine (lock monitor, "
+                "harness/_lockmon injected with go build -overlay into a scratch view of the current tree, every sync.Mutex/RWMutex of "
+                "imapserver/** replaced by a monitored type; nothing is written to the library): the same generated trials and scenarios run "
+                "with seeded pseudo-random pauses at every nested lock acquisition (the harness owns the schedule at lock points), an exact "
+                "wait-for graph reports a cycle that persists 1.5 s (an actual deadlock, with owners, waiters and call sites), and the "
+                "instance-level lock-order graph of each trial (edges with gate locks and goroutines, Goodlock criterion) predicts "
+                "inversions; a predicted cycle is re-run up to 4 times with rendezvous pauses at its call sites and only a realised "
+                "deadlock is reported (unrealised predictions are counted in the evidence). Non-trivial: a trial in which two sessions "
+                "copy/move between the same two mailboxes in opposite directions; distinct by rendered trial.",
         "assumptions": ["schedules are those the Go scheduler produces under varying GOMAXPROCS and workloads, not an enumeration: a deadlock or race that needs a schedule which was never produced is not seen (limit of the technique, see DESIGN.md)",
                         "'completes' means within 20 s on in-memory connections (normal latency: well below a millisecond per command)",
                         "failures depend on the schedule: the replay file is the trial plus the server goroutine dump; rapid cannot shrink them"],
         "units": [
             plain("c14", "TestReplayScenarios", race=True),
             rapid("c14", "TestPropStress", quick=(150, 6), thorough=(4000, 14), race=True, shrinktime="15s"),
+            plain("c14l", "TestReplayScenariosMonitored", race=True, prebuild="lockmon"),
+            rapid("c14l", "TestPropLockOrder", quick=(60, 6), thorough=(1500, 14), race=True, prebuild="lockmon", shrinktime="15s"),
         ],
     },
 }
